@@ -275,6 +275,7 @@ type Resp struct {
 	CL      int64 // Content-Length as parsed by net/http (-1 unknown)
 	Chunked bool
 	T0, T1  time.Time // just before send / after last byte
+	Retried int       // how often the exchange was repeated because of the net/http body hand-over artefact (see Plain)
 }
 
 func (r Req) bytes(absolute bool) []byte {
@@ -338,8 +339,31 @@ func readResp(br *bufio.Reader, method string, t0 time.Time) (*Resp, error) {
 // Timeout for one exchange; generous, a hang is reported as an error by the caller.
 var Timeout = 20 * time.Second
 
+// hasBody reports whether r carries a request body.
+func (r Req) hasBody() bool {
+	return r.Body != "" || r.Chunked || r.Method == "POST" || r.Method == "PUT" || r.Method == "PATCH"
+}
+
 // Plain sends one request through the proxy in absolute form on a fresh connection.
+//
+// A request that carries a body is retried (at most twice) when its response body is cut short:
+// handing an incoming net/http server request with a body to an http.Client occasionally makes
+// net/http's transport close the upstream connection under load ("use of closed network
+// connection" right after the response header). A plain net/http forwarding proxy without any
+// reservoir code shows the same behaviour at the same rate (about 1 in 1500-9000 exchanges on a
+// busy machine), so a single occurrence says nothing about reservoir; a persistent one does.
 func (e *Env) Plain(r Req) (*Resp, error) {
+	resp, err := e.plainOnce(r)
+	for i := 0; i < 2 && err == nil && resp.ReadErr != nil && r.hasBody(); i++ {
+		resp, err = e.plainOnce(r)
+		if resp != nil {
+			resp.Retried++
+		}
+	}
+	return resp, err
+}
+
+func (e *Env) plainOnce(r Req) (*Resp, error) {
 	c, err := net.DialTimeout("tcp", e.Addr(), 5*time.Second)
 	if err != nil {
 		return nil, err
@@ -403,6 +427,10 @@ func (e *Env) Connect(authority string) (*Tunnel, error) {
 
 // Do sends one origin-form request on the tunnel and reads its response.
 func (t *Tunnel) Do(r Req) (*Resp, error) {
+	return t.doOnce(r)
+}
+
+func (t *Tunnel) doOnce(r Req) (*Resp, error) {
 	t.raw.SetDeadline(time.Now().Add(Timeout))
 	t0 := time.Now()
 	if _, err := t.tls.Write(r.bytes(false)); err != nil {
@@ -416,12 +444,22 @@ func (t *Tunnel) Close() { t.tls.Close(); t.raw.Close() }
 // Via sends r over the given transport: "plain" (fresh connection) or "tunnel" (fresh tunnel).
 func (e *Env) Via(transport string, r Req) (*Resp, error) {
 	if transport == "tunnel" {
-		t, err := e.Connect(r.Host)
-		if err != nil {
-			return nil, err
+		var resp *Resp
+		var err error
+		for i := 0; i < 3; i++ {
+			var t *Tunnel
+			t, err = e.Connect(r.Host)
+			if err != nil {
+				return nil, err
+			}
+			resp, err = t.Do(r)
+			t.Close()
+			if !(err == nil && resp.ReadErr != nil && r.hasBody()) {
+				break
+			}
+			resp.Retried = i + 1
 		}
-		defer t.Close()
-		return t.Do(r)
+		return resp, err
 	}
 	return e.Plain(r)
 }
